@@ -10,6 +10,7 @@ import (
 	"github.com/internetarchive/Zeno/internal/pkg/config"
 	"github.com/internetarchive/Zeno/internal/pkg/log"
 	"github.com/internetarchive/Zeno/internal/pkg/source/lq/sqlc_model"
+	"github.com/internetarchive/Zeno/internal/pkg/verifhook"
 	"github.com/internetarchive/Zeno/pkg/models"
 )
 
@@ -91,6 +92,7 @@ func finisherReceiver(ctx context.Context, wg *sync.WaitGroup, batchCh chan *fin
 			return
 		case item := <-globalLQ.finishCh:
 			logger.Debug("received item", "item", item.GetShortID())
+			verifhook.At("lq.finish.recv", item)
 
 			var value string
 			// If preprocessing failed, there will be nil values here
